@@ -424,6 +424,6 @@ Proof.
          repeat (rewrite (proj2 (Rltb_true _ _)) by lra); cbn [andb];
          unfold OperatorsR.four_point, op2; cbv zeta;
          match goal with |- ?x < (?p + sqrt ?r) / ?q =>
-           assert (Hq : 5 < sqrt r) by (apply sqrt_gt; lra);
-           replace q with 2 by lra; set (sr := sqrt r) in *; lra end.
+           assert (Hq : 8 < sqrt r) by (apply sqrt_gt; lra);
+           set (sr := sqrt r) in *; clearbody sr; replace q with 2 by lra; lra end.
 Qed.
